@@ -14,6 +14,16 @@ FW_RULE = ("cases = random validated machine sets x call histories drawn from on
            "A case is non-trivial when %s; distinct = distinct wire encodings.")
 
 PROPS = {
+    "C13": {
+        "sub": "c13",
+        "n": {"quick": 1500, "thorough": 60000},
+        "coq_sample": {"quick": 25, "thorough": 300},
+        "rule": ("cases = a validated distribution from one of the 11 families at parameter corners (probability 1e-9, 1e9 trials, lambda 1e42, subnormal/huge/infinite "
+                 "scales, low==high, NaN/inf/negative start and max) x a scripted RNG prefix (all-zero, all-one, alternating, mixed extreme words; then a fair stream); "
+                 "12 samples are drawn in a child process that is killed after 2.5 s; every raw sampler value recorded by the hook is replayed through the Coq model's "
+                 "clamp and the three integer readings (timeout/duration, limit, counter value) must equal the implementation's. Non-trivial = at least one sample returned."),
+        "timeout": 3000,
+    },
     "C12": {
         "sub": "c12",
         "n": {"quick": 6000, "thorough": 400000},
